@@ -19,11 +19,16 @@
 #include <etl/chrono.hpp>
 #include <etl/cstring.hpp>
 #include <etl/expected.hpp>
+#include <etl/format.hpp>
 #include <etl/inplace_vector.hpp>
+#include <etl/linalg.hpp>
 #include <etl/mdspan.hpp>
 #include <etl/numeric.hpp>
 #include <etl/optional.hpp>
+#include <etl/set.hpp>
 #include <etl/span.hpp>
+#include <etl/string.hpp>
+#include <etl/cwchar.hpp>
 #include <etl/string_view.hpp>
 #include <etl/variant.hpp>
 #include <etl/vector.hpp>
@@ -192,8 +197,210 @@ static void ivec_probe_n(long long k, std::string const& op, u64 arg, Out& impl)
     });
 }
 
+
+// ---- inplace_string probes: inplace_string<Cap> holding the first k characters of "abcdefghijklmnopqrst";
+//      sources are prefixes of SRC.  Numeric arguments are size_t values (negative = two's complement).
+static char const SRC[] = "uvwxyz0123456789ABCDEFGHIJ";   // 26 characters
+static constexpr u64 SRCLEN = 26;
+
+template <std::size_t Cap>
+static bool str_probe_n(long long k, std::string const& op, std::vector<u64> const& a, Out& impl, Out& ref)
+{
+    using S  = etl::inplace_string<Cap>;
+    using SV = etl::string_view;
+    static char const init[] = "abcdefghijklmnopqrst";
+    S s(init, static_cast<std::size_t>(k));
+    u64 const size = static_cast<u64>(k);
+    u64 const cap  = Cap;
+    auto A = [&](std::size_t i) -> u64 { return i < a.size() ? a[i] : 0ULL; };
+    auto Z = [&](std::size_t i) -> std::size_t { return static_cast<std::size_t>(A(i)); };
+    auto minu = [](u64 x, u64 y) { return x < y ? x : y; };
+    // a C string holding the first n characters of SRC
+    char cbuf[32] = {};
+    auto cstr = [&](u64 n) -> char const* { std::memcpy(cbuf, SRC, static_cast<std::size_t>(minu(n, SRCLEN))); cbuf[minu(n, SRCLEN)] = 0; return cbuf; };
+    bool pre = true;
+    bool known = true;
+    auto run = [&](auto&& f) { watch(impl, s, f); };
+    if (op == "ctor_ptr") { watch_none(impl, [&] { S t(SRC, Z(0)); sink = static_cast<long long>(t.size()); }); pre = A(0) <= cap; }
+    else if (op == "ctor_fill") { watch_none(impl, [&] { S t(Z(0), 'z'); sink = static_cast<long long>(t.size()); }); pre = A(0) <= cap; }
+    else if (op == "asg_cstr") { auto const* c = cstr(A(0)); run([&] { s = c; }); pre = A(0) <= cap; }
+    else if (op == "asg_fill") { run([&] { s.assign(Z(0), 'z'); }); pre = A(0) <= cap; }
+    else if (op == "asg_ptr") { run([&] { s.assign(SRC, Z(0)); }); pre = A(0) <= cap; }
+    else if (op == "asg_view_sub") { SV v(SRC, Z(0)); run([&] { s.assign(v, Z(1), Z(2)); }); pre = A(1) <= A(0) && minu(A(2), A(0) - A(1)) <= cap; }
+    else if (op == "front") { run([&] { sink = s.front(); }); pre = size > 0; }
+    else if (op == "cfront") { run([&] { sink = static_cast<S const&>(s).front(); }); pre = size > 0; }
+    else if (op == "back") { run([&] { sink = s.back(); }); pre = size > 0; }
+    else if (op == "cback") { run([&] { sink = static_cast<S const&>(s).back(); }); pre = size > 0; }
+    else if (op == "idx") { run([&] { sink = s[Z(0)]; }); pre = A(0) <= size; }
+    else if (op == "cidx") { run([&] { sink = static_cast<S const&>(s)[Z(0)]; }); pre = A(0) <= size; }
+    else if (op == "era_it") {
+        // erase(first, last) with first = begin() + a0, last = first + a1 (a1 may be negative: last before first)
+        auto const d = static_cast<long long>(A(1));
+        run([&] { s.erase(s.cbegin() + static_cast<long long>(A(0)), s.cbegin() + static_cast<long long>(A(0)) + d); });
+        pre = A(0) <= size && d >= 0 && static_cast<u64>(d) <= size - A(0);
+    }
+    else if (op == "era_pos") { run([&] { s.erase(s.cbegin() + static_cast<long long>(A(0))); }); pre = A(0) < size; }
+    else if (op == "era") { run([&] { s.erase(Z(0), Z(1)); }); pre = A(0) <= size; }
+    else if (op == "pb") { run([&] { s.push_back('z'); }); pre = size < cap; }
+    else if (op == "pop") { run([&] { s.pop_back(); }); pre = size > 0; }
+    else if (op == "ins_fill") { run([&] { s.insert(Z(0), Z(1), 'z'); }); pre = A(0) <= size; }
+    else if (op == "ins_cstr") { auto const* c = cstr(A(1)); run([&] { s.insert(Z(0), c); }); pre = A(0) <= size; }
+    else if (op == "ins_ptr") { run([&] { s.insert(Z(0), SRC, Z(1)); }); pre = A(0) <= size; }
+    else if (op == "ins_str") { S o(SRC, Z(1)); run([&] { s.insert(Z(0), o); }); pre = A(0) <= size; }
+    else if (op == "ins_str_sub") { S o(SRC, Z(1)); run([&] { s.insert(Z(0), o, Z(2), Z(3)); }); pre = A(0) <= size && A(2) <= A(1); }
+    else if (op == "ins_view") { SV v(SRC, Z(1)); run([&] { s.insert(Z(0), v); }); pre = A(0) <= size; }
+    else if (op == "ins_view_sub") { SV v(SRC, Z(1)); run([&] { s.insert(Z(0), v, Z(2), Z(3)); }); pre = A(0) <= size && A(2) <= A(1); }
+    else if (op == "rep") { S o(SRC, Z(2)); run([&] { s.replace(Z(0), Z(1), o); }); pre = A(0) <= size; }
+    else if (op == "rep5") { S o(SRC, Z(2)); run([&] { s.replace(Z(0), Z(1), o, Z(3), Z(4)); }); pre = A(0) <= size && A(3) <= A(2); }
+    else if (op == "rep_ptr") { run([&] { s.replace(Z(0), Z(1), SRC, Z(2)); }); pre = A(0) <= size; }
+    else if (op == "rep_cstr") { auto const* c = cstr(A(2)); run([&] { s.replace(Z(0), Z(1), c); }); pre = A(0) <= size; }
+    else if (op == "app_view_sub") { SV v(SRC, Z(0)); run([&] { s.append(v, Z(1), Z(2)); }); pre = A(1) <= A(0); }
+    else if (op == "app_str") { S o(SRC, Z(0)); run([&] { s.append(o); }); pre = size + A(0) <= cap; }
+    else if (op == "app_str_sub") {
+        S o(SRC, Z(0)); run([&] { s.append(o, Z(1), Z(2)); });
+        pre = A(1) > A(0) || size + minu(A(2), A(0) - A(1)) <= cap;
+    }
+    else if (op == "app_rng") { run([&] { s.append(SRC, SRC + A(0)); }); pre = size + A(0) <= cap; }
+    else if (op == "pluseq_str") { S o(SRC, Z(0)); run([&] { s += o; }); pre = size + A(0) <= cap; }
+    // operations without a precondition (they clamp): the handler must stay silent for EVERY argument
+    else if (op == "app_fill") { run([&] { s.append(Z(0), 'z'); }); }
+    else if (op == "app_ptr") { run([&] { s.append(SRC, Z(0)); }); }
+    else if (op == "resize") { run([&] { s.resize(Z(0), 'z'); }); }
+    else if (op == "substr") { run([&] { sink = static_cast<long long>(s.substr(Z(0), Z(1)).size()); }); }
+    else if (op == "clear") { run([&] { s.clear(); }); }
+    else { known = false; }
+    if (known) { doc(ref, pre); }
+    return known;
+}
+
+static bool str_probe(Toks& in, Out& impl, Out& ref)
+{
+    auto cap = in.num(); auto k = in.num(); auto op = in.str();
+    std::vector<u64> a;
+    while (in.more()) { a.push_back(in.sz()); }
+    if (cap == 4) { return str_probe_n<4>(k, op, a, impl, ref); }
+    return str_probe_n<20>(k, op, a, impl, ref);
+}
+
+// ---- the remaining components
+static bool more_probe(std::string const& op, Toks& in, Out& impl, Out& ref)
+{
+    if (op == "sset") {
+        // static_set<int, 4>(first, first + d) over pointers; d may be negative
+        auto d = in.num();
+        static int const vals[12] = {5, 3, 9, 1, 7, 2, 8, 4, 6, 0, 11, 10};
+        int const* first = vals + 4;
+        watch_none(impl, [&] { etl::static_set<int, 4> st(first, first + d); sink = static_cast<long long>(st.size()); });
+        doc(ref, d >= 0 && d <= 4);
+        return true;
+    }
+    if (op == "cpy") {
+        auto which = in.str(); auto dnull = in.num() != 0; auto snull = in.num() != 0;
+        char dbuf[8] = "xy"; char sbuf[8] = "ab"; wchar_t wd[8] = L"xy"; wchar_t ws[8] = L"ab";
+        watch_none(impl, [&] {
+            if (which == "strncpy") { sink = etl::strncpy(dnull ? nullptr : dbuf, snull ? nullptr : sbuf, 2) != nullptr; }
+            else if (which == "wcscpy") { sink = etl::wcscpy(dnull ? nullptr : wd, snull ? nullptr : ws) != nullptr; }
+            else { sink = etl::wcsncpy(dnull ? nullptr : wd, snull ? nullptr : ws, 2) != nullptr; }
+        });
+        doc(ref, !dnull && !snull);
+        return true;
+    }
+    if (op == "linalg") {
+        // operands are mdspans with dynamic extents over one shared buffer; extents given per operand
+        auto which = in.str();
+        float bx[64] = {}; float by[64] = {}; float bz[64] = {};
+        using e1 = etl::dextents<int, 1>; using e2 = etl::dextents<int, 2>;
+        if (which == "add1" || which == "copy1" || which == "swap1") {
+            auto nx = static_cast<int>(in.num()); auto ny = static_cast<int>(in.num()); auto nz = static_cast<int>(in.num());
+            etl::mdspan<float, e1> x(bx, nx); etl::mdspan<float, e1> y(by, ny); etl::mdspan<float, e1> z(bz, nz);
+            watch_none(impl, [&] {
+                if (which == "add1") { etl::linalg::add(x, y, z); } else if (which == "copy1") { etl::linalg::copy(x, y); } else { etl::linalg::swap_elements(x, y); }
+            });
+            doc(ref, which == "add1" ? (nx == ny && nx == nz) : nx == ny);
+            return true;
+        }
+        if (which == "add2" || which == "copy2" || which == "swap2") {
+            int e[6]; for (int& v : e) { v = static_cast<int>(in.num()); }
+            etl::mdspan<float, e2> x(bx, e[0], e[1]); etl::mdspan<float, e2> y(by, e[2], e[3]); etl::mdspan<float, e2> z(bz, e[4], e[5]);
+            watch_none(impl, [&] {
+                if (which == "add2") { etl::linalg::add(x, y, z); } else if (which == "copy2") { etl::linalg::copy(x, y); } else { etl::linalg::swap_elements(x, y); }
+            });
+            bool xy = e[0] == e[2] && e[1] == e[3]; bool xz = e[0] == e[4] && e[1] == e[5];
+            doc(ref, which == "add2" ? (xy && xz) : xy);
+            return true;
+        }
+        if (which == "mvp") {
+            auto a0 = static_cast<int>(in.num()); auto a1 = static_cast<int>(in.num()); auto x0 = static_cast<int>(in.num()); auto y0 = static_cast<int>(in.num());
+            etl::mdspan<float, e2> am(bx, a0, a1); etl::mdspan<float, e1> x(by, x0); etl::mdspan<float, e1> y(bz, y0);
+            watch_none(impl, [&] { etl::linalg::matrix_vector_product(am, x, y); });
+            doc(ref, a1 == x0 && a0 == y0);
+            return true;
+        }
+        return false;
+    }
+    if (op == "sstride") {
+        auto r = static_cast<std::size_t>(in.sz());
+        using ext = etl::extents<int, 2, 3>;
+        watch_none(impl, [&] { etl::layout_stride::mapping<ext> m{}; sink = m.stride(r); });
+        doc(ref, r < 2);
+        return true;
+    }
+    if (op == "bsstr") {
+        // bitset<8>(string_view of the given characters, pos, n, '0', '1')
+        auto chars = in.list(); auto pos = in.sz(); auto n = in.sz();
+        std::string text; for (auto c : chars) { text.push_back(static_cast<char>(c)); }
+        etl::string_view v(text.data(), text.size());
+        watch_none(impl, [&] { etl::bitset<8> b(v, static_cast<std::size_t>(pos), static_cast<std::size_t>(n)); sink = static_cast<long long>(b.count()); });
+        bool pre = pos <= text.size();
+        if (pre) {
+            u64 rlen = n < text.size() - pos ? n : text.size() - pos;
+            for (u64 i = 0; i < rlen; ++i) { char c = text[static_cast<std::size_t>(pos + i)]; if (c != '0' && c != '1') { pre = false; } }
+        }
+        doc(ref, pre);
+        return true;
+    }
+    if (op == "tostr") {
+        auto cap = in.num(); auto ty = in.str(); auto v = in.num();
+        auto digits = [](unsigned long long m) { int d = 1; while (m >= 10) { m /= 10; ++d; } return d; };
+        watch_none(impl, [&] {
+            if (ty == "int") {
+                auto x = static_cast<int>(v);
+                if (cap == 0) { sink = static_cast<long long>(etl::to_string<0>(x).size()); } else if (cap == 1) { sink = static_cast<long long>(etl::to_string<1>(x).size()); }
+                else if (cap == 3) { sink = static_cast<long long>(etl::to_string<3>(x).size()); } else if (cap == 10) { sink = static_cast<long long>(etl::to_string<10>(x).size()); }
+                else { sink = static_cast<long long>(etl::to_string<20>(x).size()); }
+            } else {
+                auto x = static_cast<long long>(v);
+                if (cap == 0) { sink = static_cast<long long>(etl::to_string<0>(x).size()); } else if (cap == 1) { sink = static_cast<long long>(etl::to_string<1>(x).size()); }
+                else if (cap == 3) { sink = static_cast<long long>(etl::to_string<3>(x).size()); } else if (cap == 10) { sink = static_cast<long long>(etl::to_string<10>(x).size()); }
+                else { sink = static_cast<long long>(etl::to_string<20>(x).size()); }
+            }
+        });
+        long long val = ty == "int" ? static_cast<long long>(static_cast<int>(v)) : v;
+        unsigned long long mag = val < 0 ? 0ULL - static_cast<unsigned long long>(val) : static_cast<unsigned long long>(val);
+        int len = digits(mag) + (val < 0 ? 1 : 0);
+        doc(ref, len <= cap);
+        return true;
+    }
+    if (op == "fmt") {
+        // detail::format_escaped_sequences(text, ctx): what format_to runs on every slice of text between arguments
+        auto chars = in.list();
+        std::string text; for (auto c : chars) { text.push_back(static_cast<char>(c)); }
+        // (etl::format_to itself cannot be instantiated with a caller's iterator; the detail function is called with
+        //  a minimal context whose out() is a raw buffer)
+        struct Ctx { char* p; auto out() -> char* { return p; } };
+        char outbuf[256];
+        Ctx ctx{outbuf};
+        watch_none(impl, [&] { etl::detail::format_escaped_sequences(etl::string_view(text.data(), text.size()), ctx); sink = outbuf[0]; });
+        ref.tok("na");
+        return true;
+    }
+    return false;
+}
+
 bool vh::run_case(std::string const& op, Toks& in, Out& impl, Out& ref)
 {
+    if (op == "str") { return str_probe(in, impl, ref); }
+    if (op == "sset" || op == "cpy" || op == "linalg" || op == "sstride" || op == "bsstr" || op == "tostr" || op == "fmt") { return more_probe(op, in, impl, ref); }
     if (op == "vec") { vec_probe(in, impl, ref); return true; }
     if (op == "ivec") {
         auto cap = in.num(); auto k = in.num(); auto o = in.str(); auto arg = in.sz();
